@@ -625,7 +625,9 @@ class Context:
         tries.append(self._nice())
         self.last_model_quality = 0
         for extra in tries:
-            v, m = self.full_model(And.make([bad] + extra), self.t_branch * 2)
+            # (margins without magnitude preference: the last resort for replayability, given more time)
+            only_margins = bool(self.robust) and len(extra) == len(self.robust)
+            v, m = self.full_model(And.make([bad] + extra), self.t_claim if only_margins else self.t_branch * 2)
             if v == 'sat':
                 self.last_model_quality = 1
                 return m
@@ -736,6 +738,21 @@ class Context:
                 r = Sym.const(er if c >= 0 else -er)
                 self.atom_cache[key] = r
                 return r
+            if k == 2 and c > 0:
+                # sqrt(p/q) = s sqrt(m) / q with p q = s^2 m, m square-free: one atom per
+                # square-free integer (sqrt(1/2) and sqrt(2) share theirs)
+                c = Fraction(c)
+                pq = c.numerator * c.denominator
+                sq, m, f = 1, pq, 2
+                while f * f <= m and f < 10 ** 4:
+                    while m % (f * f) == 0:
+                        m //= f * f
+                        sq *= f
+                    f += 1
+                if m != pq or c.denominator != 1:
+                    r = self.root(Sym.const(m), 2) * Fraction(sq, c.denominator)
+                    self.atom_cache[key] = r
+                    return r
         if k % 2 == 0:
             kk = ('nonneg', x.key())
             if kk not in self.nonneg_known:
